@@ -281,14 +281,31 @@ theorem keepalive_seq (opt : Bool) (base : Bytes) : ∀ (l : List (Sent × Plan)
 
 /-- **sender conformance.**  What `write(part)` puts on the wire for any list of parts and any block size, followed
 by the last chunk, is a chunked body in the sense of RFC 7230 whose payload is the concatenation of the parts. -/
-theorem sender_chunked_conforms (blk : Nat) (hb : 0 < blk) : ∀ parts : List Bytes,
+theorem sender_chunked_conforms (blk : Nat) (hb : 0 < blk) (hb2 : blk < 4294967296) : ∀ parts : List Bytes,
     Spec.ChunkedBody ((parts.map (writeBody true blk)).flatten ++ lastChunk) parts.flatten := by
   intro parts
   induction parts with
   | nil => exact Spec.ChunkedBody.last
   | cons p t ih =>
-    have := writeLoop_chunked_spec blk hb p.length p _ _ (Nat.le_refl _) ih
+    have := writeLoop_chunked_spec blk hb hb2 p.length p _ _ (Nat.le_refl _) ih
     simpa [writeBody, List.append_assoc] using this
+
+/-- **reader conformance.**  After headers that announce `Transfer-Encoding: chunked` (and no Content-Length), `readBody`
+returns the payload of EVERY chunked body of the RFC 7230 grammar (size lines in upper or lower case, with leading
+zeros — whoever the sender is), on any live connection, i.e. for every fragmentation, and stops exactly behind it. -/
+theorem reader_accepts_rfc_chunked (H : Dic) (w b rest : Bytes) (hcb : Spec.ChunkedBody w b) (hb : b.length < 4294967296)
+    (hcl : hasHeader H sContentLength = false) (hte : header H sTransferEncoding = sChunked)
+    (i : Inp) (hi : Live i) (hd : i.data = w ++ rest) :
+    ∃ i' : Inp, readBody H i = (b, i') ∧ i'.data = rest ∧ Live i' := by
+  obtain ⟨bl, hbl, heq, hrest⟩ := readChunked_rfc recvBlock recvBlock_pos w b hcb (i.data.length + 1) i [] rest hi
+    (by rw [hd]; simp only [List.length_append]; omega) hb hd
+  refine ⟨i.advance w.length, ?_, hrest, hi⟩
+  unfold readBody readBodyWith
+  have hcl' : header H sContentLength = [] := header_absent hcl
+  simp only [hcl, hcl', hte, Bool.false_eq_true, false_and, if_false, beq_self_eq_true, not_true_eq_false, and_false,
+    if_true, atoi, digitLoop]
+  rw [heq]
+  simp [hbl]
 
 /-! ## the blocking socket loops complete partial transfers -/
 
@@ -398,6 +415,11 @@ example : exampleSent.Keeps true := by
 /-- the model run on the example: the handler's view of the request carries the 3 body bytes and the header -/
 example : (readRequest (Inp.ofBytes exampleSent.wire [1, 5, 40])).1.body = [0, 13, 10] ∧
     header (readRequest (Inp.ofBytes exampleSent.wire [1, 5, 40])).1.headers [120, 45, 97] = [118, 32, 49] := by decide
+
+/-- `0A CRLF <10 bytes> CRLF 0 CRLF CRLF` (upper case, leading zero) is a chunked body of the grammar -/
+example : Spec.ChunkedBody ([48, 65] ++ [13, 10] ++ [1, 2, 3, 4, 5, 6, 7, 8, 9, 10] ++ [13, 10] ++ [48, 13, 10, 13, 10])
+    ([1, 2, 3, 4, 5, 6, 7, 8, 9, 10] ++ []) :=
+  Spec.ChunkedBody.chunk [48, 65] [1, 2, 3, 4, 5, 6, 7, 8, 9, 10] _ _ (by decide) (by decide) (by decide) Spec.ChunkedBody.last
 
 example : IsProto sHttp11 := Or.inl rfl
 example : WFHeaders [([88, 45, 65], [118, 32, 49])] ∧ NoFraming [([88, 45, 65], [118, 32, 49])] := by
